@@ -76,12 +76,16 @@ abbrev C := Cx Float
 
 def cabs (z : C) : Float := Float.sqrt (z.re * z.re + z.im * z.im)
 
-/-- principal square root -/
+/-- principal square root, cancellation-free: the smaller component is obtained from `2 · re · im = z.im` -/
 def csqrt (z : C) : C :=
   let m := cabs z
-  let re := Float.sqrt ((m + z.re) / 2)
-  let im := Float.sqrt ((m - z.re) / 2)
-  ⟨re, if z.im < 0 then -im else im⟩
+  if m == 0 then ⟨0, 0⟩
+  else if z.re ≥ 0 then
+    let t := Float.sqrt ((m + z.re) / 2)
+    ⟨t, z.im / (2 * t)⟩
+  else
+    let t := Float.sqrt ((m - z.re) / 2)
+    ⟨z.im.abs / (2 * t), if z.im < 0 then -t else t⟩
 
 def csin (z : C) : C := ⟨Float.sin z.re * Float.cosh z.im, Float.cos z.re * Float.sinh z.im⟩
 def ccos (z : C) : C := ⟨Float.cos z.re * Float.cosh z.im, -(Float.sin z.re * Float.sinh z.im)⟩
